@@ -15,16 +15,16 @@ import Nebula.Model.Dns
 namespace Nebula.Spec.Dns
 open Nebula.Net Nebula.Dns
 
-abbrev Self := Option (String × List Addr)
+abbrev Self := Option (Name × List Addr)
 
 /-- `(name, addr)` comes from the certificate of a peer with a completed handshake, or from the
 responder's own certificate; names compared case-insensitively. -/
-def authentic (self : Self) (evs : List Ev) (name : String) (addr : Addr) : Bool :=
+def authentic (self : Self) (evs : List Ev) (name : Name) (addr : Addr) : Bool :=
   evs.any (fun e => match e with
-    | .hs _ n as => lower (n ++ ".") == lower name && memAddr addr as
+    | .hs _ n as => lower (n ++ ['.']) == lower name && memAddr addr as
     | _ => false) ||
   (match self with
-    | some (n, as) => lower n ++ "." == lower name && memAddr addr as
+    | some (n, as) => lower n ++ ['.'] == lower name && memAddr addr as
     | none => false)
 
 /-- certificate `c` belongs to a peer with a completed handshake (or is our own) whose overlay
@@ -49,25 +49,25 @@ def isLocal (self : Self) (client : Addr) : Bool :=
     | none => false)
 
 /-- The lower-cased names the responder publishes after a history (`enabled`, names). -/
-def publishStep (self : Self) (st : Bool × List String) : Ev → Bool × List String
-  | .hs _ n as => if st.1 && !as.isEmpty then (st.1, lower (n ++ ".") :: st.2) else st
+def publishStep (self : Self) (st : Bool × List Name) : Ev → Bool × List Name
+  | .hs _ n as => if st.1 && !as.isEmpty then (st.1, lower (n ++ ['.']) :: st.2) else st
   | .seed =>
     match st.1, self with
     | true, some (n, as) =>
-      let rest := st.2.filter (· != lower n ++ ".")
-      (true, if as.isEmpty then rest else (lower n ++ ".") :: rest)
+      let rest := st.2.filter (· != lower n ++ ['.'])
+      (true, if as.isEmpty then rest else (lower n ++ ['.']) :: rest)
     | _, _ => st
   | .disable => (false, [])
   | .enable =>
     match self with
     | some (n, as) =>
-      let rest := st.2.filter (· != lower n ++ ".")
-      (true, if as.isEmpty then rest else (lower n ++ ".") :: rest)
+      let rest := st.2.filter (· != lower n ++ ['.'])
+      (true, if as.isEmpty then rest else (lower n ++ ['.']) :: rest)
     | none => (true, st.2)
 
-def published (self : Self) (evs : List Ev) : List String := (evs.foldl (publishStep self) (true, [])).2
+def published (self : Self) (evs : List Ev) : List Name := (evs.foldl (publishStep self) (true, [])).2
 
-def known (self : Self) (evs : List Ev) (name : String) : Bool := (published self evs).contains (lower name)
+def known (self : Self) (evs : List Ev) (name : Name) : Bool := (published self evs).contains (lower name)
 
 def answerOK (self : Self) (evs : List Ev) (client : Addr) (qs : List Question) : Answer → Bool
   | .a name addr => addr.fam == .v4 && authentic self evs name addr &&
